@@ -5,9 +5,10 @@
 -/
 import Wbxml.Lemmas.EncWWf
 import Wbxml.Model.Typed.WvDate
+import Wbxml.Lemmas.TypedBinary
 namespace Wbxml.Lemmas.EncW
 open Wbxml Wbxml.Model Wbxml.Spec
-open Wbxml.Model.Codec (mbEncode mbEncodeLoop)
+open Wbxml.Model.Codec (mbEncode mbEncodeLoop b64DecodeE b64DecodeLoop b64Scan b64Decode)
 open Wbxml.Model.Typed
 
 theorem or80 (x : Nat) (h : x < 128) : 0x80 + x = 0x80 ||| x := by
@@ -140,5 +141,52 @@ theorem encodeDatetime_shape (s item : Bytes) (hs : s.length < 2 ^ 32) (h : enco
     have h2 := hexPairs_length d
     have h3 := stripZeros_length (hexPairs d)
     omega
+
+/-! ### OTA `ICON` / DRMREL `ds:KeyValue`: the encoder model and the C12 typed model agree -/
+
+theorem isSpaceC_eq_typed (c : UInt8) : isSpaceC c = Typed.isSpace c := by
+  simp [isSpaceC, Typed.isSpace, UInt8.le_iff_toNat_le]
+
+theorem b64TextW_eq (s : Bytes) : b64TextW s = s.filter (fun c => !Typed.isSpace c) := by
+  simp only [b64TextW, isSpaceC_eq_typed]
+
+theorem b64DecodeLoop_length_le (p : Bytes) : (b64DecodeLoop p).length ≤ p.length := by
+  fun_induction b64DecodeLoop p <;> simp_all <;> omega
+
+theorem opaqueW_eq_opaqueItem (d : Bytes) (h : d.length < 2 ^ 32) : opaqueW d = opaqueItem d := by
+  unfold opaqueW opaqueItem; rw [mbEnc_eq _ h]
+
+/-- What `drmrelContentW` / `otaIconW` emit for the C string `s` is the item `base64ToOpaqueStrip s`
+    the C12 theorems (`base64_strip_roundtrip` …) speak about. -/
+theorem b64Opaque_typed (s : Bytes) (hs : s.length < 2 ^ 32) :
+    ∃ d, b64DecodeE (b64TextW s) = .ok d ∧ opaqueW d = base64ToOpaqueStrip s := by
+  rw [b64TextW_eq, Wbxml.Lemmas.Codec.b64DecodeE_eq]
+  refine ⟨_, rfl, ?_⟩
+  have h1 := b64DecodeLoop_length_le (b64Scan (s.filter (fun c => !Typed.isSpace c)))
+  have h2 : (b64Scan (s.filter (fun c => !Typed.isSpace c))).length ≤ (s.filter (fun c => !Typed.isSpace c)).length :=
+    (List.takeWhile_sublist _).length_le
+  have h3 := List.length_filter_le (fun c => !Typed.isSpace c) s
+  rw [opaqueW_eq_opaqueItem _ (by omega)]
+  unfold base64ToOpaqueStrip b64Decode
+  rw [Wbxml.Lemmas.Codec.b64DecodeE_eq]
+  cases b64DecodeLoop (b64Scan (s.filter (fun c => !Typed.isSpace c))) <;> rfl
+
+theorem drmrelContentW_typed (r : TagRow) (hr : (r.page == 0 && r.token == 0x0C) = true) (s : Bytes)
+    (hs : s.length < 2 ^ 32) (st : WSt) :
+    drmrelContentW (some (.token r)) s st = .ok (some (st.emit (base64ToOpaqueStrip s))) := by
+  obtain ⟨d, hd, ho⟩ := b64Opaque_typed s hs
+  simp only [drmrelContentW, hr, if_true, hd, ← ho]
+  rfl
+
+theorem otaIconW_typed (attrs : List Attr) (s : Bytes) (hs : s.length < 2 ^ 32) (st : WSt)
+    (ht : st.curTag.isSome = true)
+    (hi : attrs.any (fun a => a.name.cName == b!"NAME" && cstrOf a.value == b!"ICON") = true) :
+    otaIconW (some attrs) s st = .ok (some (st.emit (base64ToOpaqueStrip s))) := by
+  obtain ⟨d, hd, ho⟩ := b64Opaque_typed s hs
+  cases hc : st.curTag with
+  | none => rw [hc] at ht; cases ht
+  | some t =>
+    simp only [otaIconW, hc, hi, if_true, hd, ← ho]
+    rfl
 
 end Wbxml.Lemmas.EncW
